@@ -11,6 +11,13 @@ _G = {}
 INF = event_scn.INF
 
 
+def _bare(ii):
+    """a single initially infected node is passed bare (the documented alternative to a collection)"""
+    if len(ii) == 1 and not isinstance(ii[0], (tuple, frozenset)):
+        return ii[0]
+    return ii
+
+
 def edges_of(adj):
     n = len(adj)
     return [(u + 1, v + 1) for u in range(n) for v in range(u + 1, n) if adj[u][v]]
@@ -45,7 +52,10 @@ def _sir(i):
         G = relabel.build_graph(n, norder, eorder, lab)
         back = {lab[u - 1]: u for u in nodes}
         tt, rt, jt = event_sir.make_fxns(s)
-        kw = dict(initial_infecteds=[lab[u - 1] for u in nodes if s["init"][u - 1] == "I"], tmin=event_scn.fl(s["tmin"]), tmax=event_scn.fl(s["tmax"]))
+        ii = [lab[u - 1] for u in nodes if s["init"][u - 1] == "I"]
+        if len(ii) == 1 and not isinstance(ii[0], (tuple, frozenset)):
+            ii = ii[0]     # a single node may be given bare - also when its label is falsy (0)
+        kw = dict(initial_infecteds=ii, tmin=event_scn.fl(s["tmin"]), tmax=event_scn.fl(s["tmax"]))
         R0 = [lab[u - 1] for u in nodes if s["init"][u - 1] == "R"]
         if R0:
             kw["initial_recovereds"] = R0
@@ -81,7 +91,7 @@ def _sis(i):
         tt, rt, jt = event_sis.make_fxns(s)
         try:
             sim = EoN.fast_nonMarkov_SIS(G, trans_time_fxn=lambda a, b, rd: tt(back[a], back[b], rd), rec_time_fxn=lambda a: rt(back[a]),
-                                         initial_infecteds=[lab[u - 1] for u in nodes if s["init"][u - 1] == "I"],
+                                         initial_infecteds=_bare([lab[u - 1] for u in nodes if s["init"][u - 1] == "I"]),
                                          tmin=float(s["tmin"]), tmax=float(s["tmax"]), return_full_data=True)
 
             class View(object):
@@ -129,7 +139,7 @@ def _disc(i):
             cnt[u] = cnt.get(u, 0) + 1
             row = s["rec"][u - 1]
             return bool(row[min(cnt[u], len(row)) - 1])
-        kw = dict(initial_infecteds=[lab[u - 1] for u in nodes if s["init"][u - 1] == "I"], tmin=s["tmin"], tmax=tmax, return_full_data=True)
+        kw = dict(initial_infecteds=_bare([lab[u - 1] for u in nodes if s["init"][u - 1] == "I"]), tmin=s["tmin"], tmax=tmax, return_full_data=True)
         R0 = [lab[u - 1] for u in nodes if s["init"][u - 1] == "R"]
         if R0:
             kw["initial_recovereds"] = R0
